@@ -79,3 +79,78 @@ def register(reg):
                 "only-when-a-worker-failed": "not all_exit_codes_zero",
             }},
         ))
+
+
+# ---- C12: wfa_alignment (glue around the external aligner) ------------------------------------------------------------------------
+from .phase_c import PathAlignment  # noqa
+CigTup = TupleT(INT, INT)
+WfaResult = ObjT("WfaResult", cigartuples=ListT(CigTup))
+Aligner = ObjT("WavefrontAligner", ref=STR, cigartuples=ListT(CigTup), cigarstring=STR)
+Aligner.ctor = ["ref"]
+Aligner.defaults = {"cigartuples": lambda eng: __import__("pyvc.engine", fromlist=["Val"]).Val(ListT(CigTup).fresh("wfa_ct"), ListT(CigTup)),
+                    "cigarstring": lambda eng: __import__("pyvc.engine", fromlist=["Val"]).Val(STR.fresh("wfa_cs"), STR)}
+PAL = ObjT("PriorityAlignment", priority=INT, seq=LINE)
+PAL.name = "Obj<PriorityAlignmentLine>"
+BatchItem = TupleT(PathAlignment, STR, STR, INT)
+
+WFA_M = {
+    "rec": "lambda j: seq_batch[j][0]",
+    "big": "lambda j: seq_batch[j][0].query_end - seq_batch[j][0].query_start > 60000",
+}
+
+
+def register_wfa(reg):
+    reg.add(Contract(file="(assumed)/pywfa.py", func="WavefrontAligner.__call__", params=dict(self=Aligner, query=STR, clip_cigar=BOOL), returns=WfaResult,
+                     trusted=True, ensures={"tuples": "same(result.cigartuples, self.cigartuples)",
+                                            "ops": "forall(lambda i: implies(0 <= i < len(self.cigartuples), self.cigartuples[i][1] >= 0 and (self.cigartuples[i][0] == 0 or "
+                                                   "self.cigartuples[i][0] == 1 or self.cigartuples[i][0] == 2 or self.cigartuples[i][0] == 4 or self.cigartuples[i][0] == 8)))"},
+                     notes="external C library (pywfa): the alignment it returns is NOT verified; only that cigartuples use op codes 0/1/2/4/8 with non-negative lengths"))
+    reg.add(Contract(
+        file=REALIGN, func="wfa_alignment", params=dict(seq_batch=ListT(BatchItem), qu=ListT(Opt(PAL))), modifies=["qu"],
+        types=dict(WavefrontAligner=Aligner, PriorityAlignment=PAL, STR=STR),
+        ghost=dict(MS=MapT(INT, INT), TS=MapT(INT, INT), ct=ListT(CigTup), q0=INT),
+        locals=dict(cigar=LINE, out_string=LINE, match=INT, mismatch=INT, cigar_len=INT, ins=INT, deletion=INT, soft_clip=INT),
+        spec_funcs=WFA_M, alias_ok=["gaf_line"],
+        requires=["q0 == len(qu)",
+                  "forall(lambda j, t: implies(0 <= j < len(seq_batch) and 0 <= t < len(keys(seq_batch[j][0].tags)), keys(seq_batch[j][0].tags)[t] in seq_batch[j][0].tags))"],
+        loops={
+            1: Loop(index="it1", fingerprint="for gaf_line, ref, query, prior_counter in seq_batch", modifies=["MS", "TS", "ct"], invariant={
+                "one-item-per-record": "len(qu) == q0 + it1",
+                "earlier-items-kept": "forall(lambda k: implies(0 <= k < q0, qu[k] == old(qu)[k]))",
+                "priority-is-the-input-counter": "forall(lambda j: implies(0 <= j < it1, not is_none(qu[q0 + j]) and val(qu[q0 + j]).priority == seq_batch[j][3]))",
+                "columns-1-9-and-12-copied": "forall(lambda j: implies(0 <= j < it1, val(qu[q0 + j]).seq[0] == rec(j).query_name and val(qu[q0 + j]).seq[1] == str(rec(j).query_length) and "
+                                             "val(qu[q0 + j]).seq[2] == str(rec(j).query_start) and val(qu[q0 + j]).seq[3] == str(rec(j).query_end) and val(qu[q0 + j]).seq[4] == rec(j).strand and "
+                                             "val(qu[q0 + j]).seq[5] == rec(j).path and val(qu[q0 + j]).seq[6] == str(rec(j).path_length) and val(qu[q0 + j]).seq[7] == str(rec(j).path_start) and "
+                                             "val(qu[q0 + j]).seq[8] == str(rec(j).path_end) and val(qu[q0 + j]).seq[11] == str(rec(j).mapping_quality)))",
+                "long-records-pass-through": "forall(lambda j: implies(0 <= j < it1 and big(j), val(qu[q0 + j]).seq[9] == str(rec(j).residue_matches) and "
+                                             "val(qu[q0 + j]).seq[10] == str(rec(j).alignment_block_length) and len(val(qu[q0 + j]).seq) == 12 + len(keys(rec(j).tags)) and "
+                                             "forall(lambda t: implies(0 <= t < len(keys(rec(j).tags)), val(qu[q0 + j]).seq[12 + t] == cat(keys(rec(j).tags)[t], rec(j).tags[keys(rec(j).tags)[t]])))))",
+            }),
+            2: Loop(index="it2", fingerprint="for k in gaf_line.tags.keys()", ghost_before="L12 = out_string", invariant={
+                "len": "len(out_string) == 12 + it2", "prefix": "forall(lambda f: implies(0 <= f < 12, out_string[f] == L12[f]))",
+                "tags": "forall(lambda t: implies(0 <= t < it2, out_string[12 + t] == cat(keys(gaf_line.tags)[t], gaf_line.tags[keys(gaf_line.tags)[t]])))",
+            }),
+            3: Loop(index="it3", fingerprint="for op_type, op_len in res.cigartuples", ghost_before="ct = res.cigartuples", invariant={
+                # the tallies against ghost prefix sums over the aligner's cigartuples
+                "match-tally": "match == MS[it3]", "block-tally": "cigar_len == TS[it3]",
+            }),
+            4: Loop(index="it4", fingerprint="for k in gaf_line.tags.keys()", ghost_before="L12 = out_string", invariant={
+                "len": "len(out_string) == 12 + it4", "prefix": "forall(lambda f: implies(0 <= f < 12, out_string[f] == L12[f]))",
+                "tags": "forall(lambda t: implies(0 <= t < it4, out_string[12 + t] == cat(keys(gaf_line.tags)[t], gaf_line.tags[keys(gaf_line.tags)[t]])))",
+            }),
+        },
+        assume_at={"before:for op_type, op_len in res.cigartuples": [
+            # DEFINITION of the ghost prefix sums for this record's cigartuples (ghost arrays are re-chosen per record)
+            "MS[0] == 0 and TS[0] == 0",
+            "forall(lambda i: implies(0 <= i < len(res.cigartuples), MS[i + 1] == MS[i] + ite(res.cigartuples[i][0] == 0, res.cigartuples[i][1], 0) and "
+            "TS[i + 1] == TS[i] + res.cigartuples[i][1]))"]},
+        assert_at={"before:out_string = f'{gaf_line.query_name}\\t{gaf_line.query_length}\\t{gaf_line.query_start}\\t{gaf_line.query_end}\\t{gaf_line.strand}\\t{gaf_line.path}\\t{gaf_line.path_length}\\t{gaf_line.path_start}\\t{gaf_line.path_end}\\t{match}": {
+            "match-count-is-the-sum-of-=-runs": "match == MS[len(ct)] and same(ct, res.cigartuples)",
+            "block-length-is-the-sum-of-all-runs": "cigar_len == TS[len(ct)]"}},
+        ensures={
+            "one-item-per-record-then-the-sentinel": "len(qu) == q0 + len(seq_batch) + 1 and is_none(qu[q0 + len(seq_batch)])",
+            "priority-is-the-input-counter": "forall(lambda j: implies(0 <= j < len(seq_batch), not is_none(qu[q0 + j]) and val(qu[q0 + j]).priority == seq_batch[j][3]))",
+        },
+        notes="ghost L12 is declared below",
+    ))
+    reg.by_key[(REALIGN, "wfa_alignment")].ghost["L12"] = LINE
